@@ -77,7 +77,7 @@ def big_boards(tier):
 def slow_cases():
     for g in games.slow_choice_games():
         for prune in (True, False):
-            yield dict(kind="game", game=g, prune=prune)
+            yield dict(kind="game", game=g, prune=prune, allow_slow=True)
 
 
 def phases(tier):
@@ -143,7 +143,7 @@ def check_case(case):
         v.cls("shared_list_object")
     if "alias" in case:
         v.cls("twin_states")
-    facts = GameFacts(game)
+    facts = GameFacts(game, allow_slow=bool(case.get("allow_slow")))
     try:
         if facts.too_slow:
             v.inconclusive = "T>300"
